@@ -437,7 +437,7 @@ class Recon:
         # bound argument tuple
         mp = strip(s2['i'])
         clo = None
-        if mp.get('k') == 'mcall' and mp['m'] == 'map' and mp['a'] and strip(mp['a'][0]).get('k') == 'closure':
+        if mp.get('k') == 'mcall' and mp['m'] in ('map', 'filter_map') and mp['a'] and strip(mp['a'][0]).get('k') == 'closure':
             clo = strip(mp['a'][0])
         else:
             for x, _ in walk(mp):
@@ -503,6 +503,24 @@ class Recon:
                 if col is not None:
                     cl['cols'][col[0]] = ('bind', s['p']['id'], s['p']['n'])
         tail = strip(body['e']) if body.get('k') == 'block' and 'e' in body else body
+        # filter_map form: `if !A.eq(B) { return None; }` statements (two columns of the row must agree), value `Some((bound..))`
+        eqs = set()
+        for s in bstm:
+            if s['k'] in ('expr', 'semi'):
+                e = strip(s['e'])
+                if e.get('k') == 'if' and 'el' not in e:
+                    c = strip(e['c'])
+                    if c.get('k') == 'unary' and c['op'] == 'not':
+                        t_ = strip(c['e'])
+                        if t_.get('k') == 'mcall' and t_['m'] == 'eq' and len(t_['a']) == 1:
+                            a_, b_ = local_of(t_['r']), local_of(t_['a'][0])
+                            rets = [x for x, _ in walk(e['th']) if x.get('k') == 'ret']
+                            if a_ is not None and b_ is not None and rets:
+                                eqs.add(frozenset((a_['id'], b_['id'])))
+                                continue
+                    self.fail('unrecognised statement in the aggregation argument closure', e)
+        if tail.get('k') == 'call' and len(tail.get('a', [])) == 1 and (tail.get('f') or {}).get('dk') == 'Ctor' and str((tail.get('f') or {}).get('d', '')).endswith('Some'):
+            tail = strip(tail['a'][0])
         bound = []
         if tail.get('k') == 'tup':
             for x in tail['es']:
@@ -510,7 +528,7 @@ class Recon:
                 if l is None:
                     self.fail('aggregated argument is not a bound column', x)
                 bound.append((l['n'], l['id']))
-        item = {'t': 'agg', 'clause': cl, 'bound': bound, 'node': get}
+        item = {'t': 'agg', 'clause': cl, 'bound': bound, 'node': get, 'eqs': eqs}
         ctx = {'t': 'aggctx', 'item': item, 'outer': cur}
         rest = stmts[i + 3:]
         rest = [x for x in rest if x['k'] != 'item']
@@ -817,6 +835,11 @@ def _validate_seq(pg, sc, plan, rule, seq, cr):
                 cols = [c for c, a in enumerate(sp['args']) if a.get('v') == bn]
                 if not cols or cl['cols'].get(cols[0], (None, None))[1] != bid:
                     raise Mismatch('aggregator argument `%s` is not the value of its column' % bn)
+                # the aggregated variable repeated in further columns: those columns must be compared with the first
+                for c2 in cols[1:]:
+                    t2 = cl['cols'].get(c2)
+                    if t2 is None or t2[0] != 'bind' or frozenset((bid, t2[1])) not in it.get('eqs', set()):
+                        raise Mismatch('aggregation: `%s` occurs in columns %d and %d but the rows are not restricted to those where the two columns agree' % (bn, cols[0], c2))
             fn = strip(it['aggfn'])
             if kind == 'neg':
                 c = callee(fn)
